@@ -156,7 +156,7 @@ def gen_corpus_case(rng):
     order = rng.choice((1, 2, 2, 3, 3, 3, 4, 4, 5, 6))
     V = rng.choice((1, 2, 2, 3, 3, 4, 6, 12))
     sents = []
-    for _ in range(rng.randint(1, 9)):
+    for _ in range(rng.choice((15, 25, 40)) if rng.random() < 0.2 else rng.randint(1, 9)):
         if sents and rng.random() < 0.2:
             sents.append(list(rng.choice(sents)))          # repeated sentence
         else:
@@ -173,7 +173,7 @@ def gen_synthetic_case(rng):
         rows = [((UNK,), 0), ((BOS,), 0)] + [((w,), gen_count(rng)) for w in ids]
         return "synthetic", order, V, rows
     grams = set()
-    for _ in range(rng.choice((1, 2, 3, 5, 8, 13, 21, 34))):
+    for _ in range(rng.choice((1, 2, 3, 5, 8, 13, 21, 34, 55, 89))):
         if grams and rng.random() < 0.5:
             # a sibling of an existing n-gram: same suffix, other first word(s)
             base = list(rng.choice(sorted(grams)))
@@ -367,6 +367,8 @@ def oracle_findings(line, hans, hist=None):
             hist("adjust.discounts", "fallback" if want is FALLBACK else "closed-form")
         if discs_differ(hd, want):
             if near_boundary(st) or near_boundary(flush_variant_stats(order, rows, n, st, recs)):
+                if hist is not None:
+                    hist("adjust.skipped", "discount-boundary")
                 continue
             out.append(("discounts", "order %d: discounts %s, Chen-Goodman on the counts-of-counts %r of the adjusted counts: %s" % (
                 n, " ".join("%.6g" % float(x) for x in hd), st[1:], " ".join("%.6g" % float(x) for x in want))))
